@@ -17,6 +17,11 @@ var props = map[string][]family{
 	"C19": {famAll},
 	"C14": {famCheck},
 	"C01": {famTree},
+	"C03": {famServeWant("c03")},
+	"C11": {famServeWant("c11")},
+	"C16": {famServeWant("c16")},
+	"C04": {famConfig},
+	"C05": {famConfig},
 }
 
 func main() {
